@@ -135,10 +135,10 @@ def main(ctx):
     # (b) TLC-generated behaviours
     cases = tlc_cases(ctx, 3, 1, False, 0)
     # every leaf kind incl. integers beyond 2^53 / at the ends of int64 with their near neighbours (rich alphabet)
-    cases += tlc_cases(ctx, 2, 2, True, 0)
+    cases += tlc_cases(ctx, 2, 2, True, 0 if not ctx.quick else 8)
     ctx.cov["model_pairs_exhaustive"] = len(cases)
     if ctx.quick:
-        sim = tlc_cases(ctx, 7, 3, True, 6, simulate="num=80", depth=14)
+        sim = tlc_cases(ctx, 7, 3, True, 6, simulate="num=60", depth=14)
     else:
         cases += tlc_cases(ctx, 4, 1, False, 24)
         cases += tlc_cases(ctx, 3, 2, False, 12)
